@@ -20,7 +20,9 @@
       for the classes that inherit from it (`fragment_always_emitted_false`);
     * C08-F3 the fragment bases are written in alphabetical order, which CPython cannot linearise when one of
       them derives from another that sorts earlier (`modules_always_load_false`).
-  Outside those two decidable triggers the package-level clauses hold (`C08_partial`).  The clauses about a single
+    * C08-F4 at an interface position that also gets sub-type classes only the interface class inherits from a
+      fragment the selection set spreads; the sub-type classes unpack it (`siblings_inherit_alike_false`).
+  Outside those three decidable triggers the package-level clauses hold (`C08_partial`).  The clauses about a single
   class — the mixin criterion, the exact extra bases from @mixin, the order of the fragments module — hold
   unconditionally, for every fuel, state, history and enumeration oracle.
 
@@ -236,8 +238,17 @@ def ModulesAlwaysLoad : Prop :=
   ∀ (e : Order.EnumOracle), Order.EnumOK e → ∀ (env : Env) (fuel : Nat) (ops : List Operation) (out : PackageOut),
     fragmentsModule e env fuel ops = .ok out → ∀ t ∈ moduleTables out, mroOK t = true
 
+/-- "the object returned for it is an instance of the class generated for the fragment", whatever the runtime type
+    of the object: all classes generated for one selection set (the members of the `Union[…]` of an interface
+    position) inherit the fragments the interface class inherits -/
+def InstanceAtEveryRuntimeType : Prop :=
+  ∀ (e : Order.EnumOracle), Order.EnumOK e → ∀ (env : Env) (fuel : Nat) (ops : List Operation) (out : PackageOut),
+    fragmentsModule e env fuel ops = .ok out →
+      (∀ g ∈ out.ops, siblingsInheritAlike env g.out.classes g.out.st.mixins = true) ∧
+      (∀ fo, out.fragments = some fo → siblingsInheritAlike env fo.classes (fo.deps.flatMap (·.2)) = true)
+
 /-- the package-level part of the property at full strength -/
-def C08_full : Prop := FragmentAlwaysEmitted ∧ ModulesAlwaysLoad
+def C08_full : Prop := FragmentAlwaysEmitted ∧ ModulesAlwaysLoad ∧ InstanceAtEveryRuntimeType
 
 /-! ### witnesses -/
 
@@ -303,6 +314,37 @@ theorem modules_always_load_false : ¬ ModulesAlwaysLoad := by
 example : trigMroConflict id uEnv 10 [uA] = true := by decide
 example : trigUnpackedAndInherited id uEnv 10 [uA] = false := by decide
 
+def tDogB : TypeDef := { name := "Dog", kind := .object, interfaces := ["Animal"], fields := [FieldDef.mk "id" (.named "ID") [], FieldDef.mk "barks" (.named "Boolean") []] }
+def tQueryA : TypeDef := { name := "Query", kind := .object, fields := [FieldDef.mk "animal" (.named "Animal") []] }
+/-- `fragment QF on Query { animal { __typename ...AF ... on Dog { barks } } }` -/
+def sQF : Fragment := { name := "QF", on := "Query", sid := 2, sel := [.field none "animal" [] 3 [.field none "__typename" [] 0 [], .spread "AF" [], .inline (some "Dog") [] 4 [.field none "barks" [] 0 []]]] }
+def sEnv : Env := { schema := { types := [tAnimal, tDogB, tQueryA], query := some "Query" }, frags := [sQF, wAF] }
+/-- `query A { ...QF }` -/
+def sA : Operation := { kind := .query, name := some "A", sid := 1, sel := [.spread "QF" []] }
+
+/-- finding C08-F4: `QFAnimalAnimal(AF)` but `QFAnimalDog(BaseModel)` for the same selection set -/
+theorem siblings_inherit_alike_false : ¬ InstanceAtEveryRuntimeType := by
+  intro h
+  have hw : (match fragmentsModule id sEnv 10 [sA] with
+      | .ok out => (match out.fragments with
+          | some fo => !siblingsInheritAlike sEnv fo.classes (fo.deps.flatMap (·.2))
+          | none => false)
+      | .error _ => false) = true := by decide
+  cases hm : fragmentsModule id sEnv 10 [sA] with
+  | error err => rw [hm] at hw; cases hw
+  | ok out =>
+    rw [hm] at hw
+    cases hfo : out.fragments with
+    | none => rw [hfo] at hw; cases hw
+    | some fo =>
+      rw [hfo] at hw
+      have := (h id enumOK_id sEnv 10 [sA] out hm).2 fo hfo
+      rw [this] at hw
+      cases hw
+
+example : trigSiblingUnpacks id sEnv 10 [sA] = true := by decide
+example : trigUnpackedAndInherited id sEnv 10 [sA] = false ∧ trigMroConflict id sEnv 10 [sA] = false := by decide
+
 /-- **the full-strength statement is false on the pinned tree** -/
 theorem C08_full_false : ¬ C08_full := fun h => fragment_always_emitted_false h.1
 
@@ -310,7 +352,8 @@ theorem C08_full_false : ¬ C08_full := fun h => fragment_always_emitted_false h
 
 /-- the complement of the finding triggers (both decidable, computed by the model) -/
 def Supported_08 (e : Order.EnumOracle) (env : Env) (fuel : Nat) (ops : List Operation) : Prop :=
-  ¬ (trigUnpackedAndInherited e env fuel ops = true ∨ trigMroConflict e env fuel ops = true)
+  ¬ (trigUnpackedAndInherited e env fuel ops = true ∨ trigMroConflict e env fuel ops = true ∨
+     trigSiblingUnpacks e env fuel ops = true)
 
 /-- named extra hypothesis (not a finding): the dependency dict of the emitted fragments module is acyclic.
     Implied by GraphQL validation; validated by the harness on every case; not derived in Lean. -/
@@ -332,14 +375,20 @@ theorem C08_partial (e : Order.EnumOracle) (he : Order.EnumOK e) (env : Env) (fu
     (∀ fo, out.fragments = some fo → Loads (external fo) (classTable fo.classes)) ∧
     (∀ g ∈ out.ops, ∀ c ∈ g.out.classes, ∀ b ∈ c.bases,
       b = "BaseModel" ∨ (∃ n ∈ g.out.st.mixins, b = pascal n) ∨ (∃ p ∈ g.out.st.mixinImports, b = p.2)) ∧
-    (∀ t ∈ moduleTables out, mroOK t = true) := by
+    (∀ t ∈ moduleTables out, mroOK t = true) ∧
+    ((∀ g ∈ out.ops, siblingsInheritAlike env g.out.classes g.out.st.mixins = true) ∧
+     (∀ fo, out.fragments = some fo → siblingsInheritAlike env fo.classes (fo.deps.flatMap (·.2)) = true)) := by
   have hF1 : trigUnpackedAndInherited e env fuel ops = false := by
     cases ht : trigUnpackedAndInherited e env fuel ops with
     | true => exact absurd (Or.inl ht) hs
     | false => rfl
   have hF3 : trigMroConflict e env fuel ops = false := by
     cases ht : trigMroConflict e env fuel ops with
-    | true => exact absurd (Or.inr ht) hs
+    | true => exact absurd (Or.inr (Or.inl ht)) hs
+    | false => rfl
+  have hF4 : trigSiblingUnpacks e env fuel ops = false := by
+    cases ht : trigSiblingUnpacks e env fuel ops with
+    | true => exact absurd (Or.inr (Or.inr ht)) hs
     | false => rfl
   obtain ⟨acc, hacc, hops, _, hcase⟩ := fragmentsModule_ok e env fuel ops out h
   have hfromOps := addOperations_from env fuel ops acc hacc
@@ -347,7 +396,7 @@ theorem C08_partial (e : Order.EnumOracle) (he : Order.EnumOK e) (env : Env) (fu
     intro g hg
     obtain ⟨o, marks, hgen⟩ := hfromOps g hg
     exact generate_spec env fuel _ marks _ hgen
-  refine ⟨?_, ?_, ?_, ?_⟩
+  refine ⟨?_, ?_, ?_, ?_, ?_⟩
   · -- inherited fragments are emitted
     intro g hg n hn
     rw [hops] at hg
@@ -394,6 +443,24 @@ theorem C08_partial (e : Order.EnumOracle) (he : Order.EnumOK e) (env : Env) (fu
       have : ((moduleTables out).any fun t => !mroOK t) = true := List.any_eq_true.mpr ⟨t, ht, by simp [hm]⟩
       simp only [this] at hF3
       cases hF3
+  · unfold trigSiblingUnpacks at hF4
+    rw [h] at hF4
+    simp only [Bool.or_eq_false_iff] at hF4
+    obtain ⟨h1, h2⟩ := hF4
+    constructor
+    · intro g hg
+      cases hsib : siblingsInheritAlike env g.out.classes g.out.st.mixins with
+      | true => rfl
+      | false =>
+        have : (out.ops.any fun g => !siblingsInheritAlike env g.out.classes g.out.st.mixins) = true :=
+          List.any_eq_true.mpr ⟨g, hg, by simp [hsib]⟩
+        rw [this] at h1
+        cases h1
+    · intro fo hfo
+      rw [hfo] at h2
+      cases hsib : siblingsInheritAlike env fo.classes (fo.deps.flatMap (·.2)) with
+      | true => rfl
+      | false => simp [hsib] at h2
 
 /-- … and outside the trigger of C08-F1 generation never dies with `KeyError` inside `FragmentsGenerator`
     (`dependencies_dict[dep]`, `fragments_definitions[name]`, `class_defs_dict[name]` all find their key): the
@@ -436,7 +503,8 @@ example : (match fragmentsModule id okEnv 10 [okC, wB] with
         && out.ops.all (fun g => !g.out.st.mixins.isEmpty)
     | .error _ => false) = true := by decide
 
-example : trigUnpackedAndInherited id okEnv 10 [okC, wB] = false ∧ trigMroConflict id okEnv 10 [okC, wB] = false := by decide
+example : trigUnpackedAndInherited id okEnv 10 [okC, wB] = false ∧ trigMroConflict id okEnv 10 [okC, wB] = false
+    ∧ trigSiblingUnpacks id okEnv 10 [okC, wB] = false := by decide
 
 example : Acyclic [("AF", []), ("DF", [])] := ⟨fun _ => 0, by
   intro n ds m hl hm
